@@ -27,6 +27,7 @@ def roundTrips16 (pwd : Str) : Bool :=
 * `lib7 <salt> <pwd>`              → `encrypt_type_7` with the drawn salt `|` decoding `|` T/F (all 16 library salts round-trip)
 * `h8|h9 <salt> <pwd> <kdf bytes>` → `encrypt_type_8/9` with the drawn salt and the KDF answer supplied by the harness
 * `h5 <salt> <pwd> <checksum>`     → `encrypt_type_5`
+* `dec8 <text>` / `dec9 <text>`    → `decrypt_type_8/9` (always `err:NotImplementedError`)
 -/
 def handle : List String → String
   | ["chk", p] =>
@@ -66,6 +67,14 @@ def handle : List String → String
     match decStr s, decStr p, decStr k with
     | some salt, some pwd, some chk => show' (encryptType5 (fun _ _ => chk) salt pwd)
     | _, _, _ => "bad-request"
+  | ["dec8", e] =>
+    match decStr e with
+    | some t => (match decryptType8 t with | .ok s => encStr s | .error .notImplementedError => "err:NotImplementedError")
+    | none => "bad-request"
+  | ["dec9", e] =>
+    match decStr e with
+    | some t => (match decryptType9 t with | .ok s => encStr s | .error .notImplementedError => "err:NotImplementedError")
+    | none => "bad-request"
   | _ => "bad-request"
 
 end Ccp.Drv.Pwd
